@@ -6,7 +6,7 @@
     ([vm_compute]) on the tables gocc actually emitted for each grammar of the run, which
     instantiates the theorems to gocc's own output, for all token sequences. *)
 From Coq Require Import List Arith ZArith Lia Bool.
-From Gocc Require Import LR.Parse LR.Validate LR.Trees LR.Eval LR.Sound LR.SoundTop LR.Complete LR.Exact LR.ErrorPos.
+From Gocc Require Import LR.Parse LR.Validate LR.Trees LR.Eval LR.Sound LR.SoundTop LR.Complete LR.Exact LR.ErrorPos LR.Canonical LR.Gen LR.GenProofs.
 Import ListNotations.
 
 (** [input] is a sentence: a parse tree of the start symbol (the single body symbol of
@@ -61,6 +61,36 @@ Theorem C02_parse_terminates : forall g tb an sem,
   exists fuel0, forall fuel, fuel0 <= fuel -> r_out (parse tb sem input fuel) <> PFuel.
 Proof. exact C02_terminates. Qed.
 Print Assumptions C02_parse_terminates.
+
+(** FOR EVERY GRAMMAR, without any per-grammar evaluation: [gen_all] is an executable Gallina model of gocc's
+    generator (FIRST sets, Closure, Goto, the state worklist in gocc's order, table cells) whose output is
+    compared with gocc's own item sets / transitions / compiled tables on every run (same state numbering, same
+    item order).  Whatever it outputs satisfies the theorems above; it outputs tables exactly when the grammar
+    has no canonical LR(1) conflict. *)
+Theorem C02_every_grammar_accept_implies_sentence :
+  forall g nn ntm symbols la_order p_acts terr fuel tb an tr,
+  gen_all g nn ntm symbols la_order p_acts terr fuel = Some (tb, an, tr) ->
+  forall sem input fuel' v, no_err_in_bodies g terr = true ->
+  Forall (fun t => ttype t <> EOFT) input -> Forall (fun t => ttype t < ntm) input ->
+  r_out (parse tb sem input fuel') = POk v ->
+  exists pr0 X0 t, nth_error g 0 = Some pr0 /\ rhs pr0 = [X0] /\ wt g X0 t input.
+Proof. exact gen_accept_implies_sentence. Qed.
+Print Assumptions C02_every_grammar_accept_implies_sentence.
+
+Theorem C02_every_grammar_sentence_implies_accept :
+  forall g nn ntm symbols la_order p_acts terr fuel tb an tr,
+  gen_all g nn ntm symbols la_order p_acts terr fuel = Some (tb, an, tr) ->
+  forall sem input, (forall i p kids, sem i p kids <> None) ->
+  forall pr0 X0 t, nth_error g 0 = Some pr0 -> rhs pr0 = [X0] -> wt g X0 t input ->
+  forall fuel', size t + 1 <= fuel' -> exists v, r_out (parse tb sem input fuel') = POk v.
+Proof. exact gen_sentence_implies_accept. Qed.
+Print Assumptions C02_every_grammar_sentence_implies_accept.
+
+Theorem C02_generator_succeeds_iff_LR1 : forall g nn ntm symbols la_order p_acts terr fuel,
+  gen_wf g nn ntm symbols la_order terr = true -> 2 ^ length (item_universe g la_order) < fuel ->
+  ((exists tb an tr, gen_run g nn ntm symbols la_order p_acts terr fuel = GenOk tb an tr) <-> ~ canonical_conflict g).
+Proof. exact gen_succeeds_iff_lr1. Qed.
+Print Assumptions C02_generator_succeeds_iff_LR1.
 
 (** Non-vacuity: S' -> S ; S -> a S | b   with hand-made canonical tables; "a a b" is accepted. *)
 Definition ex_g : grammar :=
